@@ -105,9 +105,20 @@ def check_case(ctx, case):
         # a table that does not have the documented shape (samples, N) selects something else than `samples` resamplings
         # of the N configurations: refused, or else exactly the means over the configurations each row selects
         for nm_, tb_, ns_ in (('narrow', rng.integers(0, max(n // 2, 1), size=(nb, max(n // 2, 1))), nb), ('one-row', table[:1], nb), ('wide', rng.integers(0, n, size=(nb, n + 3)), nb)):
+            refused_ = False
             try:
                 bb = o.export_bootstrap(ns_, random_numbers=tb_)
             except Exception:
+                refused_ = True
+            if ctx.lean is not None and n <= 60 and nb <= 40:
+                # the model's request check (`exportBootChecked`): same verdict
+                rr_ = ctx.lean.call({'op': 'resample', 'what': 'boot', 'samples': int(ns_), 'value': q2j(Fraction(float(o.value))), 'x': [q2j(v) for v in fx],
+                                     'table': [[int(v) for v in row] for row in tb_]})
+                if '_err' in rr_:
+                    probs.append(('disagree', 'lean-driver-error', rr_['_err']))
+                elif ('exc' in rr_) != refused_:
+                    probs.append(('disagree', 'boot-table-verdict', '%s table %r: impl %s, model %s' % (nm_, tb_.shape, 'refuses' if refused_ else 'accepts', 'refuses' if 'exc' in rr_ else 'accepts')))
+            if refused_:
                 continue
             exp_ = [float(np.mean([fx[kk] for kk in row])) for row in tb_]
             if len(bb) != len(tb_) + 1 or not all(close(float(u), v, rtol=1e-10, scale=scale) for u, v in zip(bb[1:], exp_)):
@@ -154,10 +165,13 @@ def check_case(ctx, case):
             except ValueError:
                 pass
         if ctx.lean is not None and n <= 60 and nb <= 40:
-            rr = ctx.lean.call({'op': 'resample', 'what': 'boot', 'value': q2j(Fraction(float(o.value))), 'x': [q2j(v) for v in fx], 'table': [[int(v) for v in row] for row in table]})
+            rr = ctx.lean.call({'op': 'resample', 'what': 'boot', 'samples': int(nb), 'value': q2j(Fraction(float(o.value))), 'x': [q2j(v) for v in fx], 'table': [[int(v) for v in row] for row in table]})
             if '_err' in rr:
                 probs.append(('disagree', 'lean-driver-error', rr['_err']))
             else:
+                if 'exc' in rr:
+                    probs.append(('disagree', 'boot-table-verdict', 'model refuses a table of the documented shape'))
+                    return probs
                 m = [Fraction(a, c) for a, c in rr['out']]
                 if len(m) != len(b) or not all(close(float(u), v, rtol=1e-12, scale=scale) for u, v in zip(m, b)):
                     probs.append(('disagree', 'model-vs-impl-bootstrap', 'n=%d' % n))
